@@ -46,6 +46,7 @@ type State struct {
 	vars     map[types.Object]*Val
 	path     string
 	heap     map[string]string // heap array name -> current term
+	base     []baseAlt         // what unknown heap arrays look like: guarded alternatives of havoc epochs
 	counters map[string]string
 	dead     bool
 }
@@ -53,6 +54,7 @@ type State struct {
 func (s *State) clone() *State {
 	n := &State{vars: map[types.Object]*Val{}, path: s.path, heap: map[string]string{}, counters: map[string]string{}}
 	n.defers = append([]deferEntry{}, s.defers...)
+	n.base = append([]baseAlt{}, s.base...)
 	n.panicking = s.panicking
 	n.recovered = s.recovered
 	for k, v := range s.vars {
@@ -65,6 +67,12 @@ func (s *State) clone() *State {
 		n.counters[k] = v
 	}
 	return n
+}
+
+// baseAlt: under cond, a heap array not in State.heap equals the initial symbol of havoc epoch `epoch`.
+type baseAlt struct {
+	cond  string
+	epoch string
 }
 
 type ExitKind int
@@ -90,30 +98,8 @@ type Obligation struct {
 	Goal   string
 	Result SolveResult
 	Pos    token.Position
-}
-
-// ---------- contracts ----------
-
-type AtClause struct {
-	Kind string // requires | ghost
-	Name string
-	Expr *SExpr
-}
-
-type Contract struct {
-	Ghosts   []AtClause
-	At       map[string][]AtClause
-	RawSMT   []string
-	Key      string
-	Requires []*SExpr
-	Ensures  []*SExpr
-	NoPanic  bool
-	NoEscape bool
-	Trusted  bool
-	Invs     map[int][]*SExpr
-	Params   []string // for trusted funcs: declared names
-	Results  []string
-	Raw      []string
+	Src    string // contract clause text, when the obligation stems from one
+	Replay *ReplayResult
 }
 
 // ---------- engine ----------
@@ -122,7 +108,7 @@ type Eng struct {
 	pkg       *packages.Package
 	info      *types.Info
 	fset      *token.FileSet
-	contracts map[string]*Contract
+	contracts *ContractSet
 	decls     []string
 	facts     []string
 	nfresh    int
@@ -140,6 +126,19 @@ type Eng struct {
 	exits     []Exit
 	allTags   *map[string]int
 	ghosts    map[string]types.Object
+	globals      map[string]*Val
+	trustedUsed  map[string]bool
+	entrySyms    []ParamSym
+	declsAtEntry []string
+	theoriesIn   map[string]bool
+	substrDone   bool
+	runesDone    bool
+	closureOrd   int
+	callOrd      map[*ast.CallExpr]int
+	declared     map[string]bool
+	heapSorts    map[string]string
+	lastArgs     []*Val
+	retCount     map[string]int
 }
 
 func (e *Eng) fresh(prefix string) string {
@@ -505,55 +504,53 @@ func (e *Eng) heapName(kind string, t types.Type) (string, string) {
 	return kind + "$" + types.TypeString(t, func(p *types.Package) string { return p.Name() }), es
 }
 
-func (e *Eng) heapGet(st *State, name, sort string) string {
-	if t, ok := st.heap[name]; ok {
-		return t
-	}
-	// declare initial heap symbol once per engine
-	sym := smtSym("H0$" + name)
-	found := false
-	d := fmt.Sprintf("(declare-const %s %s)", sym, sort)
-	for _, x := range e.decls {
-		if x == d {
-			found = true
-		}
-	}
-	if !found {
-		e.decls = append(e.decls, d)
-	}
-	st.heap[name] = sym
-	return sym
-}
-
 func (e *Eng) havocHeap(st *State) {
 	for k := range st.heap {
 		delete(st.heap, k)
 	}
-	// new epoch: subsequent heapGet must yield fresh symbols
+	// new epoch: subsequent heapSym must yield fresh symbols
 	e.nfresh++
-	epoch := e.nfresh
-	st.heap["$epoch"] = strconv.Itoa(epoch)
+	st.base = []baseAlt{{cond: "true", epoch: strconv.Itoa(e.nfresh)}}
+}
+
+func (e *Eng) declareOnce(d string) {
+	if e.declared == nil {
+		e.declared = map[string]bool{}
+	}
+	if !e.declared[d] {
+		e.declared[d] = true
+		e.decls = append(e.decls, d)
+	}
 }
 
 func (e *Eng) heapSym(st *State, name, sort string) string {
-	heapSorts[name] = sort
+	if e.heapSorts == nil {
+		e.heapSorts = map[string]string{}
+	}
+	e.heapSorts[name] = sort
 	if t, ok := st.heap[name]; ok {
 		return t
 	}
-	ep := st.heap["$epoch"]
-	sym := smtSym("H" + ep + "$" + name)
-	d := fmt.Sprintf("(declare-const %s %s)", sym, sort)
-	found := false
-	for _, x := range e.decls {
-		if x == d {
-			found = true
+	if len(st.base) == 0 {
+		st.base = []baseAlt{{cond: "true", epoch: "0"}}
+	}
+	sym := func(ep string) string {
+		sy := smtSym("H" + ep + "$" + name)
+		e.declareOnce(fmt.Sprintf("(declare-const %s %s)", sy, sort))
+		return sy
+	}
+	term := sym(st.base[len(st.base)-1].epoch)
+	for i := len(st.base) - 2; i >= 0; i-- {
+		t := sym(st.base[i].epoch)
+		if t != term {
+			term = fmt.Sprintf("(ite %s %s %s)", st.base[i].cond, t, term)
 		}
 	}
-	if !found {
-		e.decls = append(e.decls, d)
+	if len(st.base) > 1 {
+		term = e.define("hb", sort, term)
 	}
-	st.heap[name] = sym
-	return sym
+	st.heap[name] = term
+	return term
 }
 
 // ---------- merging ----------
@@ -643,6 +640,35 @@ func (e *Eng) merge(sts []*State) *State {
 			n.vars[k] = e.mergeVals(paths, vals)
 		}
 	}
+	// heap base: identical bases are kept, otherwise the alternatives are concatenated under the path conditions
+	sameBase := true
+	for _, s := range live[1:] {
+		if len(s.base) != len(live[0].base) {
+			sameBase = false
+			break
+		}
+		for i := range s.base {
+			if s.base[i] != live[0].base[i] {
+				sameBase = false
+			}
+		}
+	}
+	if sameBase {
+		n.base = append([]baseAlt{}, live[0].base...)
+	} else {
+		for _, s := range live {
+			if len(s.base) == 0 {
+				s.base = []baseAlt{{cond: "true", epoch: "0"}}
+			}
+			for _, a := range s.base {
+				c := s.path
+				if len(s.base) > 1 {
+					c = e.define("bc", "Bool", and(s.path, a.cond))
+				}
+				n.base = append(n.base, baseAlt{cond: c, epoch: a.epoch})
+			}
+		}
+	}
 	keys := map[string]bool{}
 	for _, s := range live {
 		for k := range s.heap {
@@ -655,56 +681,39 @@ func (e *Eng) merge(sts []*State) *State {
 	}
 	sort.Strings(ks)
 	for _, k := range ks {
-		if k == "$epoch" {
-			// if epochs differ, take a new epoch and drop everything (sound: havoc)
-			ep := live[0].heap[k]
-			for _, s := range live {
-				if s.heap[k] != ep {
-					e.nfresh++
-					n.heap = map[string]string{"$epoch": strconv.Itoa(e.nfresh)}
-					e.gap("heap epochs differ at merge: heap havocked")
-					goto counters
-				}
-			}
-			n.heap[k] = ep
-			continue
-		}
-		var terms []*Val
-		srt := ""
+		hs := e.heapSorts[k]
+		var terms []string
 		for _, s := range live {
-			t, has := s.heap[k]
-			if !has {
-				// materialise initial symbol for that state
-				t = "?"
-			}
-			terms = append(terms, scalar(t, "H", nil))
+			terms = append(terms, e.heapSym(s, k, hs))
 		}
 		allSame := true
 		for _, t := range terms {
-			if t.T != terms[0].T {
+			if t != terms[0] {
 				allSame = false
 			}
 		}
 		if allSame {
-			n.heap[k] = terms[0].T
+			n.heap[k] = terms[0]
 			continue
 		}
-		_ = srt
-		// differing heaps: need sort; recover from name registry
-		hs := heapSorts[k]
-		for i, t := range terms {
-			if t.T == "?" {
-				terms[i] = scalar(e.heapSym(live[i], k, hs), "H", nil)
-			}
-		}
-		term := terms[len(terms)-1].T
+		term := terms[len(terms)-1]
 		for i := len(terms) - 2; i >= 0; i-- {
-			term = fmt.Sprintf("(ite %s %s %s)", paths[i], terms[i].T, term)
+			if terms[i] == term {
+				continue
+			}
+			term = fmt.Sprintf("(ite %s %s %s)", paths[i], terms[i], term)
 		}
 		n.heap[k] = e.define("h", hs, term)
 	}
+	goto counters
 counters:
-	for k := range live[0].counters {
+	ckeys := map[string]bool{}
+	for _, s := range live {
+		for k := range s.counters {
+			ckeys[k] = true
+		}
+	}
+	for k := range ckeys {
 		var vals []*Val
 		for _, s := range live {
 			c, ok := s.counters[k]
@@ -718,7 +727,6 @@ counters:
 	return n
 }
 
-var heapSorts = map[string]string{}
 
 // ---------- helpers ----------
 
